@@ -28,8 +28,8 @@ def unregisterWatcher (uid : Nat) : M Unit :=
 
 def setStopping : M Unit := modA fun a => { a with stopping := true }
 def setRestarting : M Unit := modA fun a => { a with restarting := true, stopping := true }
-/-- the `except Exception:` of `Arbiter.restart(inside_circusd=True)` (fix 273f512): `_restarting = False; _stopping = False` -/
-def clearRestarting : M Unit := modA fun a => { a with restarting := false, stopping := false }
+/-- the `except Exception:` of `Arbiter.restart(inside_circusd=True)` (fix 273f512): `_restarting = False; _stopping = was_stopping` (candidate refinement: the flag found on entry is restored) -/
+def clearRestarting (was : Bool) : M Unit := modA fun a => { a with restarting := false, stopping := was }
 def setLoopStop (b : Bool) : M Unit := modA fun a => { a with loopStop := b }
 def setSocketEvent (b : Bool) : M Unit := modA fun a => { a with socketEvent := b }
 def setSockReady (b : Bool) : M Unit := modA fun a => { a with sockReady := b }
@@ -354,10 +354,11 @@ def arbStop (rec : Rec) (wt : Waiter) : M Unit := do
   await rec (.arbStopWatchers ws true) .quitAfterStop wt
 
 def arbRestartInside (rec : Rec) (wt : Waiter) : M Unit := do
+  let a ← getA                               -- `was_stopping = self._stopping`, read before `_stopping = True`
   setRestarting
   let ws ← iterWatchers false
   -- `try: yield self._stop_watchers(close_output_streams=True)` (fix 273f512), see `runResume`
-  await rec (.arbStopWatchers ws true) .restartInsideAfterStop wt
+  await rec (.arbStopWatchers ws true) (.restartInsideAfterStop a.stopping) wt
 
 def arbReloadNext (rec : Rec) (ws : List Nat) (g s : Bool) (wt : Waiter) : M Unit :=
   match ws with
@@ -452,7 +453,7 @@ def runResume (rec : Rec) (k : Kont) (v : Val) (wt : Waiter) : M Unit :=
   | .multi _ _, v => deliver rec wt v          -- not reached: multi frames are handled by `deliver`
   | .multiSlot fid slot, v => multiCollect rec fid slot v
   -- `except Exception: self._restarting = False; self._stopping = False; raise` (fix 273f512)
-  | .restartInsideAfterStop, .exc e => do clearRestarting; deliver rec wt (.exc e)
+  | .restartInsideAfterStop was, .exc e => do clearRestarting was; deliver rec wt (.exc e)
   | _, .exc e => deliver rec wt (.exc e)       -- an exception propagates through every other frame
   | .killWait w p sig i polls, _ => killLoop rec w p sig i polls wt
   | .manageWatchersTail need, _ => manageWatchersTail rec need wt
@@ -480,7 +481,7 @@ def runResume (rec : Rec) (k : Kont) (v : Val) (wt : Waiter) : M Unit :=
   | .arbRestartAfterStop ws, _ => await rec (.arbStartWatchers ws) .ignore wt
   | .arbReloadNext rest g s, _ => arbReloadAfter rec rest g s wt
   | .quitAfterStop, _ => arbStopTail rec wt
-  | .restartInsideAfterStop, _ => arbStopTail rec wt
+  | .restartInsideAfterStop _, _ => arbStopTail rec wt
   | .ignore, _ => deliver rec wt .unit
 
 /-- the interpreter: `fuel` bounds the number of nested task activations -/
